@@ -89,7 +89,7 @@ class FixedAdapter:
     def key(self):
         return tuple(sorted((k, repr(v)) for k, v in vars(self.dev).items()))
 
-    def extra_check(self, model):
+    def extra_check(self, model, flushed=False):
         return None
 
 
@@ -120,11 +120,13 @@ class StandardAdapter:
     def key(self):
         return (tuple(sorted((k, repr(v)) for k, v in vars(self.dev).items())), self.stdin.tell(), self.stdout.getvalue())
 
-    def extra_check(self, model):
+    def extra_check(self, model, flushed=False):
+        """the echo on stdout is the chars of the complete bytes written so far - one char per byte value, never re-interpreted;
+        it may lag behind (buffering is allowed), but after a get_output call everything has been printed."""
         full = len(model.out) // 8
         exp = ''.join(chr(sum(model.out[8 * k + i] << i for i in range(8))) for k in range(full)) if self.verbose else ''
         got = self.stdout.getvalue()
-        if got != exp:
+        if not exp.startswith(got) or (flushed and got != exp):
             return ('stdout', exp, got)
         return None
 
@@ -151,7 +153,7 @@ def bfs(adapter_factory, data, depth):
                 got = apply_op(ad.dev, op)
                 transitions += 1
                 outcomes.add(got[0])
-                extra = ad.extra_check(m2)
+                extra = ad.extra_check(m2, flushed=op in ('get', 'get_inc') and got[0] == 'bytes')
                 if got != exp or extra:
                     if len(bad) < 5:
                         bad.append({'device': ad.name, 'input': list(data), 'ops': list(hist) + [op],
@@ -195,6 +197,48 @@ def straight_bits(adapter_factory, maxlen):
                 apply_op(ad.dev, 'w%d' % b)
                 n += 1
                 stack.append((ad.snapshot(), m2, bits + (b,)))
+    return n, bad
+
+
+TEXT_ALPHABET = (0x5C, ord('u'), ord('U'), ord('0'), ord('4'), ord('1'), ord('A'), 0x0A)
+
+
+def straight_texts(adapter_factory, first, maxlen):
+    """every byte string of length <= maxlen over an alphabet that can spell escape sequences (backslash, u, U, digits), starting
+    with `first`, written bit by bit to a fresh device, then collected: no exception, exact bytes, exact echo."""
+    n, bad = 0, []
+    for L in range(0, maxlen):
+        for rest in itertools.product(TEXT_ALPHABET, repeat=L):
+            data = (first,) + rest
+            ad = adapter_factory(b'')
+            if hasattr(ad, '_bind'):
+                ad._bind()
+            model = PackModel(b'')
+            ops = []
+            problem = None
+            for byte in data:
+                for i in range(8):
+                    op = 'w%d' % ((byte >> i) & 1)
+                    ops.append(op)
+                    exp, got = model.step(op), apply_op(ad.dev, op)
+                    n += 1
+                    if got != exp:
+                        problem = ('op result', list(exp), list(got))
+                        break
+                if problem:
+                    break
+            if not problem:
+                exp, got = model.step('get'), apply_op(ad.dev, 'get')
+                ops.append('get')
+                n += 1
+                if got != exp:
+                    problem = ('op result', list(exp), list(got))
+                else:
+                    extra = ad.extra_check(model, flushed=True)
+                    if extra:
+                        problem = extra
+            if problem and len(bad) < 5:
+                bad.append({'device': ad.name, 'input': [], 'ops': ops, 'expected': problem[1], 'observed': problem[2], 'what': problem[0], 'text': bytes(data).decode('latin1')})
     return n, bad
 
 
@@ -321,6 +365,13 @@ def work(task):
         for b in bad:
             sieve.add(record(b))
         return {'states': 0, 'transitions': n, 'bit_strings': (1 << (maxlen + 1)) - 1}, sieve.result()
+    if kind == 'texts':
+        _, dev, first, maxlen = task
+        fac = FixedAdapter if dev == 'fixed' else (lambda d: StandardAdapter(d, True))
+        n, bad = straight_texts(fac, first, maxlen)
+        for b in bad:
+            sieve.add(record(b))
+        return {'states': 0, 'transitions': n, 'texts': sum(len(TEXT_ALPHABET) ** k for k in range(maxlen))}, sieve.result()
     if kind == 'reads':
         _, dev, first = task
         fac = FixedAdapter if dev == 'fixed' else (lambda d: StandardAdapter(d, True))
@@ -393,6 +444,9 @@ def make_tasks(tier):
     tasks.append(('bfs', 'quiet', (0x41,), 5))
     tasks.append(('bits', 'fixed', 16))
     tasks.append(('bits', 'std', 12))
+    for first in TEXT_ALPHABET:
+        tasks.append(('texts', 'std', first, 6 if tier != 'thorough' else 7))
+    tasks.append(('texts', 'fixed', 0x5C, 6))
     tasks.append(('reads', 'fixed', None))
     for first in range(256):
         tasks.append(('reads', 'fixed', first))
@@ -428,7 +482,7 @@ def replay(args):
         for op in c['ops']:
             exp, got = model.step(op), apply_op(ad.dev, op)
             print(op, 'expected', exp, 'observed', got)
-            bad = bad or exp != got or bool(ad.extra_check(model))
+            bad = bad or exp != got or bool(ad.extra_check(model, flushed=op in ('get', 'get_inc') and got[0] == 'bytes'))
     if bad:
         print(f'VIOLATION property={PROP} replay={args.replay}')
         return 1
@@ -464,11 +518,12 @@ def main():
             {'device': 'KeyboardIO', 'events': [[1, 1, 0x80], [1, 0, 0x80]], 'model_polls': kb_model_stream([(1, 1, 0x80), (1, 0, 0x80)], 30)[1]},
         ],
         'bit_strings_written': total.get('bit_strings', 0),
+        'texts_written': total.get('texts', 0),
         'inputs_read_to_eof': total.get('inputs', 0),
         'keyboard_scripts': total.get('kb_scripts', 0),
         'keyboard_distinct_streams': total.get('kb_distinct_streams', 0),
         'outcome_classes': sorted(outcomes),
-        'bounds': {'bfs_depth': 10 if args.tier != 'thorough' else 12, 'bit_strings_up_to': 16, 'inputs': 'all byte strings of length <= 2 (FixedIO and StandardIO)',
+        'bounds': {'bfs_depth': 10 if args.tier != 'thorough' else 12, 'bit_strings_up_to': 16, 'texts': 'all byte strings of length <= 6 (7 thorough) over backslash, u, U, 0, 4, 1, A, newline written to StandardIO (exact bytes, exact echo, no exception)', 'inputs': 'all byte strings of length <= 2 (FixedIO and StandardIO)',
                    'keyboard': 'all scripts of <= 3 events over ' + str(len(kb_kinds(args.tier))) + ' event kinds, 40 reads (thorough adds all 4-event scripts over 12 kinds)'},
         'exhaustive': not missing,
     }
